@@ -21,10 +21,11 @@ import ast
 import copy
 
 from ..cfg import CFG, forward
-from ..model import FuncInfo, chain, unparse
+from ..model import AnalysisError, FuncInfo, chain, unparse
 from ..normalize import expanded, single_assignments
 from ..persist import MUTATORS as _MUTATORS
 from ..persist import PersistEngine
+from ..tables import WriterTables
 
 GATEWAY = "update_attribute"
 # members of an entity / type / component object that lead to the workspace: a test on one of them, guarding nothing but
@@ -388,6 +389,131 @@ class _FlowAliases(dict):
 
     def at(self, node):
         return self.per_node.get(id(node), self)
+
+
+class RobustWriterTables(WriterTables):
+    """sa/tables.py's route table, completed for a dispatch by COMPUTED NAME: `writer = getattr(cls, f"write_{attribute}", None)`,
+    called under whatever guard (`attribute in KEY_MAP and writer is not None`).  The attribute strings such a look-up can
+    reach are the ones for which the built name is a method of the writer; for each of them the function is evaluated
+    with the attribute fixed to that constant (branches pruned, KEY_MAP put in as its literal, the look-up resolved) and
+    the writer method actually reached becomes the route — or none, when the guard sends it to the fallback."""
+
+    def _dispatch(self):
+        super()._dispatch()
+        self._computed_name_dispatch()
+
+    def _computed_name_dispatch(self):
+        from ..kinds import reach
+        from ..normalize import Normalizer
+
+        fn0 = self.writer.methods["update_field"]
+        attr = self.uf_attr
+        fn = Normalizer(self.p).view(fn0)
+        defs = single_assignments(fn.node)
+        methods = set(self.writer.methods)
+
+        def built(e, value):
+            """the string the name expression denotes when the attribute is `value`"""
+            class A(ast.NodeTransformer):
+                def visit_Name(self, x):
+                    return ast.copy_location(ast.Constant(value=value), x) if (x.id == attr and isinstance(x.ctx, ast.Load)) else x
+            r = _FoldStrings().visit(A().visit(copy.deepcopy(expanded(e, fn.node, defs))))
+            return r.value if isinstance(r, ast.Constant) and isinstance(r.value, str) else None
+
+        def is_lookup(c):
+            return isinstance(c, ast.Call) and isinstance(c.func, ast.Name) and c.func.id == "getattr" and len(c.args) >= 2 \
+                and isinstance(c.args[0], ast.Name) and c.args[0].id in ("cls", "self", self.writer.name) \
+                and any(isinstance(x, ast.Name) and x.id == attr for x in ast.walk(expanded(c.args[1], fn.node, defs)))
+
+        lookups = [c for c in ast.walk(fn.node) if is_lookup(c)]
+        if not lookups:
+            return
+        marker = "\x00"
+        cands = []
+        for c in lookups:
+            pat = built(c.args[1], marker)
+            if pat is None or pat.count(marker) != 1:
+                raise AnalysisError(f"h5_writer.py:{fn0.node.lineno}: writer looked up by a computed name that cannot be evaluated")
+            pre, suf = pat.split(marker)
+            for m in sorted(methods):
+                if m.startswith(pre) and m.endswith(suf) and len(m) > len(pre) + len(suf):
+                    x = m[len(pre): len(m) - len(suf)] if suf else m[len(pre):]
+                    if x not in cands:
+                        cands.append(x)
+        # locals that hold the looked-up writer
+        holders = {}
+        for n in ast.walk(fn.node):
+            if isinstance(n, ast.Assign) and len(n.targets) == 1 and isinstance(n.targets[0], ast.Name) and is_lookup(n.value):
+                holders[n.targets[0].id] = n.value
+
+        # the package's KEY_MAP (kept by name in the views) as a literal, so that `attribute in KEY_MAP` can be decided
+        class Lit(ast.NodeTransformer):
+            def visit_Compare(self_, n):
+                self_.generic_visit(n)
+                if len(n.ops) == 1 and isinstance(n.ops[0], (ast.In, ast.NotIn)) and isinstance(n.comparators[0], ast.Name):
+                    r = self.p.resolve_name(fn.module, n.comparators[0].id)
+                    v = r[1][1] if (r and r[0] == "assign") else None
+                elif len(n.ops) == 1 and isinstance(n.ops[0], (ast.In, ast.NotIn)) and isinstance(n.comparators[0], ast.Attribute) \
+                        and isinstance(n.comparators[0].value, ast.Name) and n.comparators[0].value.id in ("cls", "self", self.writer.name):
+                    m = self.writer.lookup(n.comparators[0].attr)
+                    v = m[2] if (m and m[1] == "assign") else None
+                else:
+                    return n
+                if isinstance(v, ast.Call) and isinstance(v.func, ast.Name) and v.func.id in ("frozenset", "set", "tuple", "list") and len(v.args) == 1:
+                    v = v.args[0]  # frozenset(("a", "b")) holds what its literal argument holds
+                if isinstance(v, ast.Dict) and all(isinstance(k, ast.Constant) for k in v.keys):
+                    n.comparators = [ast.copy_location(ast.Dict(keys=[ast.Constant(value=k.value) for k in v.keys],
+                                                                 values=[ast.Constant(value=None) for _ in v.keys]), n.comparators[0])]
+                elif isinstance(v, (ast.List, ast.Tuple, ast.Set)) and all(isinstance(k, ast.Constant) for k in v.elts):
+                    n.comparators = [ast.copy_location(ast.Tuple(elts=[ast.Constant(value=k.value) for k in v.elts], ctx=ast.Load()), n.comparators[0])]
+                return n
+
+        node = Lit().visit(copy.deepcopy(fn.node))
+        ast.fix_missing_locations(node)
+        g = CFG(node)
+
+        def method_of(e):
+            ch = chain(e)
+            if ch and ch[0] in ("cls", self.writer.name, "self") and len(ch) == 2 and ch[1] in methods:
+                return ch[1]
+            return None
+
+        changed = False
+        for x in cands:
+            if x in self.routes:
+                continue
+            facts = {"const:" + attr: x}
+            for nm, c in holders.items():
+                facts["notnone:" + nm] = built(c.args[1], x) in methods
+            calls = []
+            for nd in reach(g, [g.entry], attr, facts):
+                if nd.ast is None or isinstance(nd.ast, list) or nd.kind == "with":
+                    continue
+                for c in ast.walk(nd.ast):
+                    if not isinstance(c, ast.Call):
+                        continue
+                    m = method_of(c.func)
+                    if m is None and isinstance(c.func, ast.Name) and c.func.id in holders:
+                        m = built(holders[c.func.id].args[1], x)
+                        m = m if m in methods else None
+                    elif m is None and is_lookup(c.func):
+                        m = built(c.func.args[1], x)
+                        m = m if m in methods else None
+                    if m is not None and m.startswith(("write_", "update_")) and m != "write_entity_type" and m not in calls:
+                        calls.append(m)
+            if len(calls) == 1 and calls[0] != self.fallback:
+                self.routes[x] = calls[0]
+                changed = True
+            elif len(calls) > 1 and self.fallback not in calls:
+                raise AnalysisError(f"h5_writer.py:{fn0.node.lineno}: unrecognised dispatcher branch for attribute {x!r} ({calls})")
+        if changed:
+            by_handler: dict = {}
+            for r, h in self.routes.items():
+                by_handler.setdefault(h, []).append(r)
+            self.route_groups = [(rs, h) for h, rs in by_handler.items()]
+            self.value_routes = [r for r, h in self.routes.items() if h == "write_data_values"]
+            self.array_routes = [r for r, h in self.routes.items() if h == "write_array_attribute"]
+            self.dedicated_routes = [r for r, h in self.routes.items() if h not in ("write_data_values", "write_array_attribute")]
 
 
 class RobustPersistEngine(PersistEngine):
